@@ -77,21 +77,45 @@ class HarnessFile:
 
 
 ANN = re.compile(r"^\s*//@\s*([a-z_]+)\s*:\s*(.*?)\s*$")
-FN = re.compile(r"^\s*(?:pub\s+)?fn\s+([A-Za-z0-9_]+)\s*\(")
+FN = re.compile(r"^\s*(?:pub\s+)?fn\s+([A-Za-z0-9_]+|\$[a-z_]+)\s*\(")
+MACRO_DEF = re.compile(r"^\s*macro_rules!\s*([A-Za-z0-9_]+)")
+MACRO_USE = re.compile(r"^([A-Za-z0-9_]+)!\(\s*([A-Za-z0-9_]+)\s*(?:,(.*))?\);\s*$")
+
+
+def make_ob(hf, path, ln, name, pending, inst=None):
+    ob = Obligation()
+    ob.name = name
+    ob.file = path
+    ob.line = ln
+    ob.crate = hf.crate
+    ob.tier = (pending.get("tier") or ["quick"])[-1]
+    ob.functions = [x.strip() for v in pending.get("functions", []) for x in v.split(",") if x.strip()]
+    ob.bound = " ".join(pending.get("bound", []))
+    if inst:
+        ob.bound += f" [instantiation: {inst.strip()}]"
+    ob.assumes = pending.get("assume", [])
+    ob.stubs = pending.get("stub", [])
+    if pending.get("timeout"):
+        ob.timeout = int(pending["timeout"][-1])
+    ob.expect_panics = (pending.get("expect_panics") or ["no"])[-1] in ("yes", "true")
+    ob.unwind_is_violation = (pending.get("unwind_is_violation") or ["no"])[-1] in ("yes", "true")
+    ob.finding = (pending.get("finding") or [None])[-1]
+    return ob
 
 
 def parse_harness_file(path):
     hf = HarnessFile(path)
     pending = {}
-    in_header = True
     saw_proof = False
+    cur_macro = None
+    macros = {}
     with open(path) as f:
         lines = f.readlines()
     for ln, line in enumerate(lines, 1):
         m = ANN.match(line)
         if m:
             k, v = m.group(1), m.group(2)
-            if k in ("property", "crate", "target", "cargo_args", "inject") and not saw_proof and not pending.get("obligation"):
+            if k in ("property", "crate", "target", "cargo_args", "inject"):
                 if k == "property":
                     hf.property = v
                 elif k == "crate":
@@ -106,29 +130,31 @@ def parse_harness_file(path):
                 continue
             pending.setdefault(k, []).append(v)
             continue
+        m = MACRO_DEF.match(line)
+        if m:
+            cur_macro = m.group(1)
+            continue
+        if cur_macro and line.startswith("}"):
+            cur_macro = None
+            continue
         if "#[kani::proof" in line:
             saw_proof = True
             continue
         m = FN.match(line)
         if m and saw_proof:
-            ob = Obligation()
-            ob.name = m.group(1)
-            ob.file = path
-            ob.line = ln
-            ob.crate = hf.crate
-            ob.tier = (pending.get("tier") or ["quick"])[-1]
-            ob.functions = [x.strip() for v in pending.get("functions", []) for x in v.split(",") if x.strip()]
-            ob.bound = " ".join(pending.get("bound", []))
-            ob.assumes = pending.get("assume", [])
-            ob.stubs = pending.get("stub", [])
-            if pending.get("timeout"):
-                ob.timeout = int(pending["timeout"][-1])
-            ob.expect_panics = (pending.get("expect_panics") or ["no"])[-1] in ("yes", "true")
-            ob.unwind_is_violation = (pending.get("unwind_is_violation") or ["no"])[-1] in ("yes", "true")
-            ob.finding = (pending.get("finding") or [None])[-1]
-            hf.obligations.append(ob)
+            name = m.group(1)
+            if name.startswith("$"):
+                if not cur_macro:
+                    raise SystemExit(f"{path}:{ln}: macro-style harness outside macro_rules!")
+                macros[cur_macro] = dict(pending)
+            else:
+                hf.obligations.append(make_ob(hf, path, ln, name, pending))
             pending = {}
             saw_proof = False
+            continue
+        m = MACRO_USE.match(line)
+        if m and m.group(1) in macros:
+            hf.obligations.append(make_ob(hf, path, ln, m.group(2), macros[m.group(1)], inst=m.group(3) or ""))
     if not (hf.property and hf.crate and hf.target):
         raise SystemExit(f"harness file {path}: missing //@ property/crate/target header")
     return hf
